@@ -14,7 +14,7 @@ RULE = ("one (Compiler, VM) pair kept across lines in the harness, as the intera
         "environment under the definitional semantics; a rejected line contributes nothing, a line failing while running "
         "contributes the effects it completed). non-trivial = distinct session with >= 2 lines")
 ASSUMPTIONS = ["sessions inside the recorded finding class heap_or_function_across_lines (a float/string/array constant or value, or a function, created by one line and still referenced when a later line runs) are classified, reported as KNOWN-FINDING and not compared further"]
-NOTES = ["proved: failed_line_harmless (compile and run reset everything transient), rollback theorems of C09; session_refines_program for scalar sessions is carried by the complete enumeration + SemSession oracle"]
+NOTES = ["proved: session_refines_program_F2, line_refines_F2, session_equals_single_program_F2 (sessions of scalar lines with blocks, if-chains, loops; exclusions D29 decls_done, D30 init_done), failed_line_harmless, rollback theorems; sessions outside F2 are carried by the complete enumeration + SemSession oracle + the failing-line family"]
 
 ALPHA = [
     "stel a = 1", "stel b = a + 1", "a = a + 1", "a + b", "stel a = 5; a",
